@@ -167,7 +167,12 @@ def check(chk, repo):
         for d in fi.decorators:
             last = d.split("(")[0].split(".")[-1]
             if last not in transparent:
-                rep.fn("STATE-decorator", fi, f"@{d}", False,
+                from ..rules_premise import passthrough_decorator
+                okd, whyd = passthrough_decorator(repo, fi, d)
+                if okd:
+                    rep.fn("STATE-decorator", fi, f"@{d} is a pass-through wrapper (times / logs, calls once, returns the result)", True)
+                    continue
+                rep.fn("STATE-decorator", fi, f"@{d}", False, (whyd + "; " if whyd else "") +
                        f"{fi.qual} is wrapped by @{d}: a cache or wrapper keeps state between calls, so results depend "
                        "on the call history (stale entries survive a re-fit or a reused buffer)")
     # (iv-b) the repository's own decorators are stateless: the wrapper closure captures the wrapped function only
